@@ -322,6 +322,24 @@ def oracle(ctx):
     ctx.sample({'template': cases[0][0]['src'], 'expected': cases[0][1]})
 
 
+def judge_disagreement(ctx, d):
+    """the implementation reports another location than the model (which reproduces the known findings D-11b..f exactly): if that
+    location does not identify the offending substring, it is a failing input that no listed finding explains"""
+    case, impl = d.get('input'), d.get('impl') or {}
+    if not isinstance(case, dict) or 'src' not in case or impl.get('exc') != 'TemplateError':
+        return
+    norm = case['src'].replace('\r\n', '\n')
+    tok, off = impl.get('token'), impl.get('offset')
+    if not isinstance(tok, str) or not isinstance(off, int):
+        return
+    line = 1 + norm[:off].count('\n')
+    col = off - (norm[:off].rfind('\n') + 1)
+    if norm[off:off + len(tok)] != tok or (impl.get('line'), impl.get('col')) != (line, col):
+        ctx.violation('source[offset:offset+len(token)] != token, or line/column do not belong to the offset (and the deviation is not the one '
+                      'the model of the known findings reproduces)', {'src': case['src'], 'kind': 'correspondence disagreement'},
+                      expected=d.get('model'), actual={k: impl.get(k) for k in ('exc', 'cls', 'msg', 'token', 'offset', 'line', 'col')})
+
+
 def reproduce_finding(ctx, f):
     return None
 
